@@ -11,7 +11,7 @@ from ..ctl import ProcessState as PS
 from ._common import CtlProperty, default_sample, describe_unit, features
 
 ID = 'C02'
-ALPHABET = (('pause',), ('play',), ('kill', 't1'), ('kill', 't2'), ('resume', 'v1'))
+ALPHABET = (('pause',), ('play',), ('kill', 't1'), ('kill', 't2'), ('resume', 'v1'), ('unask',))
 FINAL_RESULT = {'ret': (programs.RET_VALUE, True), 'ret_none': (None, True), 'unsucc': (programs.UNSUCC_CODE, False),
                 'stop_t': (programs.STOP_VALUE, True), 'stop_f': (programs.STOP_VALUE, False)}
 
@@ -166,7 +166,7 @@ def units_for(tier: str) -> List[Any]:
     return units
 
 
-WC_ALPHABET = (('pause',), ('play',), ('kill', 't1'), ('kill', 't2'))
+WC_ALPHABET = (('pause',), ('play',), ('kill', 't1'), ('kill', 't2'), ('unask',))
 
 
 def wc_cfg(unit: Any) -> ctl.Config:
